@@ -142,4 +142,7 @@ def run(ctx, rep):
     rep.floor("IN", "grammar actions feeding this rule", common_g.emit_inputs(ctx, rep, "C17"), 5)
     import pipeline
     pipeline.rule(ctx, rep, "C17", ['resolve_types'])
+    rep.rule("LX", "lexical agreement (C03 A10, re-evaluated here): the property quantifies over documents - token classes, their priorities, the keyword rule, comments and white space must be the reference ones (a changed comment / number / keyword regex silently drops or merges members)")
+    import lexical
+    lexical.rules(ctx, rep, "C17", {"trivia", "classes", "priority", "keywords", "tokenizer"})
     rep.assumptions += ["TB-1 rustc MIR (format templates are read from rustc's compact format_args encoding)", "TB-4 tabulator", "names stored in the tree are the identifiers written in the source (grammar wiring rule, C02)"]
